@@ -524,6 +524,7 @@ def newAppend : M WState := do
   let (footer, cdeStart) ← findAndParseEocd
   if footer.diskNumber != footer.diskWithCd then throw .unsupportedArchive else do
     let (archiveOffset, directoryStart, numberOfFiles) ← getDirectoryCounts footer cdeStart
+    if directoryStart > cdeStart then throw .invalidArchive else
     let r ← attempt (seek (.start directoryStart))
     match r with
     | .error _ => throw .invalidArchive
